@@ -17,9 +17,11 @@ Decided (DESIGN.md section 5, C09):
     S1-chunk-length-is-library-count on every non-throwing path from the pull call to a return the returned string has been cut to
                                      exactly the byte count the library reported (result variable / next_out - data()), and is not
                                      modified afterwards
-    N2-retry-only-with-input-left    (stream functions; instances exist once read() loops) a path that calls inflate / BZ2_bzDecompress
-                                     again after "OK" has tested avail_in: with no input left an OK without output means truncated
-                                     data and must end in a throw, not in another pull
+    N2-retry-only-with-input-left    (stream functions) assuming "OK", no output (avail_out untouched, returned string empty) and
+                                     avail_in == 0 -- the input ran dry inside a stream -- every path ends in a throw: neither another
+                                     pull (endless loop) nor a normal return (truncated data accepted)
+    S2-no-pull-again-over-data       under "more" read() does not call the pull function again while the chunk holds data (count >= 1 by
+                                     convention) / without having looked at the count (stream functions): the next call would overwrite it
     N1-no-empty-chunk-while-more     assuming the library reported "more to come" (gzread/read > 0, BZ_OK, Z_OK) the function cannot
                                      return a possibly empty chunk: the count is >= 1 by convention (and S1 holds), or the path tests
                                      the count, or it pulls again.  The same for a path that has just started the next stream after a
@@ -69,7 +71,7 @@ from ..c08_util import in_io_layer
 from ..c09_util import (DECOMP, RTM, OPEN_CLOSE, dedupe, decompressor_classes, read_path_functions, method_of, pull_calls,
                         call_name, assume, walk_from, returned_local, stream_field, count_resizes, count_test_elements,
                         unconsumed_zero_guard, guard_signature, end_declarations, string_call_on, STRING_MUTATORS, addr_carrier,
-                        field_assigned_from, data_sources, handle_arg_is, helper_reaches, normalized, state_env, input_test_elements, catch_all_handler, nodes_in_handler, must_pass, is_exit, scn, reaches,
+                        field_assigned_from, data_sources, handle_arg_is, helper_reaches, normalized, state_env, input_test_elements, no_output_env, has_output_env, on_normal_path, is_stream_member, catch_all_handler, nodes_in_handler, must_pass, is_exit, scn, reaches,
                         assigned_from)
 from ..flow import path_search, describe_path
 
@@ -183,6 +185,14 @@ def errdisc_rules(fb, R):
             continue
         verdict, msg, _o = E.check_site(fb, fn, call, conv)
         if verdict in ('dropped', 'returned'):
+            # the status may travel through an extracted helper of this function (`result = adjust(result);`): decide the same call
+            # in the normal form with the helpers inlined
+            g = normalized(fb, getattr(fn, 'base', fn))
+            if g is not fn and call['id'] in g.nodes and g.nodes[call['id']].get('q') == call['q'] and getattr(g, 'origin', None):
+                v2, m2, _o2 = E.check_site(fb, g, g.nodes[call['id']], conv)
+                if v2 == 'ok':
+                    verdict, msg = 'ok', m2 + ' (helpers inlined)'
+        if verdict in ('dropped', 'returned'):
             alt = _handled_by_callers(fb, getattr(fn, 'base', fn), call, conv)
             if alt is not None:
                 verdict, msg = 'ok', alt
@@ -293,16 +303,32 @@ def _one_pull(fb, R, fn, call, pull, X):
                     'so truncated input is accepted as a shorter file: %s'
                     % (name, pull.names.get('more', 'more'), E.describe(fn, o.exits[0]) if o.exits else ''),
                     'every path tests the count or pulls again')
-            # ---- N2: pulling again after an OK without output is only sound while input is left (else: truncated => throw)
+            # ---- N2: OK, no output, no input left = truncated data: must end in a throw (neither another pull nor a return)
             if pull.unused == ('avail_in',):
-                plain = assume(fb, fn, call, pull, pull.more)
-                if plain is not None and plain.retry:
-                    o3 = assume(fb, fn, call, pull, pull.more, stop_at=input_test_elements(fn, call, pull))
-                    R.check(o3 is not None and not o3.retry and not o3.truncated, 'N2-retry-only-with-input-left', key + ':pulls-again', site,
-                            '%s reported %s and read() calls it again on a path that never looked at avail_in: when the input has run dry '
-                            '(truncated stream) %s keeps returning %s without output -- the truncation is never reported (endless loop '
-                            'instead of an error)' % (name, pull.names.get('more', 'more'), name, pull.names.get('more', 'more')),
-                            'every path back to the pull call passes a test of avail_in')
+                sq0 = stream_field(fn, call, pull)
+                dry = no_output_env(fn, call, pull, X)
+                dry.update({('node', x): E.fin(0) for x in fn.nodes if is_stream_member(fn, x, sq0, {'avail_in'})})
+                o3 = assume(fb, fn, call, pull, pull.more, extra=dry)
+                ok3 = o3 is not None and not o3.retry and not o3.exits and not o3.returned and not o3.truncated
+                what = 'calls it again (endless loop)' if (o3 is not None and o3.retry) else 'returns normally'
+                R.check(ok3, 'N2-retry-only-with-input-left', key + ':input-exhausted', site,
+                        'assuming %s reported %s with no output and avail_in == 0 (the input has run dry inside a stream = truncated '
+                        'data) read() %s instead of raising an error%s'
+                        % (name, pull.names.get('more', 'more'), what,
+                           ': ' + E.describe(fn, o3.exits[0]) if (o3 is not None and o3.exits) else ''),
+                        'OK without output and without input left always ends in a throw')
+
+    # ---- S2: a chunk that holds data is returned before the library is asked again (the next pull overwrites the buffer)
+    if s1_ok:
+        if pull.positive:
+            o4 = assume(fb, fn, call, pull, pull.more, extra=has_output_env(fn, call, pull, X))
+        else:
+            o4 = assume(fb, fn, call, pull, pull.more, stop_at=ctests)
+        R.check(o4 is not None and not o4.retry and not o4.truncated, 'S2-no-pull-again-over-data', '%s:%s' % (base, pull.names.get('more', 'more')), site,
+                '%s reported %s and read() can call it again %s: the bytes already produced are overwritten by the next call and never '
+                'delivered' % (name, pull.names.get('more', 'more'),
+                               'although at least one byte was produced' if pull.positive else 'without having looked at the byte count'),
+                'no path pulls again over produced data')
 
     if pull.stream_end is None:
         return
@@ -325,7 +351,7 @@ def _one_pull(fb, R, fn, call, pull, X):
     if reinits:
         worst = None
         for r2 in reinits:
-            o2 = walk_from(fb, fn, r2, site=call['id'], stop_at=ctests, env=state_env(fn, call, until=r2['id']))
+            o2 = walk_from(fb, fn, r2, site=call['id'], stop_at=ctests, env=state_env(fn, call, until=r2['id']), seeded=True)
             if o2 is None or o2.truncated:
                 R.broken('%s (%s): cannot walk from %s' % (fn.q, fn.loc(r2['id']), r2['q']))
                 continue
@@ -337,22 +363,51 @@ def _one_pull(fb, R, fn, call, pull, X):
                 'more input follows: %s' % (sname, name, E.describe(fn, worst[1]) if worst else ''),
                 'after the reopen every path tests the count or pulls again')
 
-    # ---- X2: end declared only when the unconsumed input is empty
+    # ---- X2: end declared only when the unconsumed input is empty.  Path statement: take the walks that return normally (an end
+    # declaration followed by a throw is an error report, not a silent end); under "more" none of them may pass a declaration;
+    # under stream end with input left (avail_in >= 1 / unused count >= 1) none may either, and none may pass one without the
+    # library having been asked.
     sq = stream_field(fn, call, pull)
     o_more = assume(fb, fn, call, pull, pull.more)
     for D in end_declarations(fn, call):
         did = D['id']
         sig = guard_signature(fn, did)
-        in_more = o_more is not None and did in o_more.reached
-        in_end = did in o_end.reached
+        in_more = on_normal_path(o_more, fn, call['id'], did)
+        in_end = on_normal_path(o_end, fn, call['id'], did)
         if not in_more and not in_end:
-            continue   # error path only (throws afterwards: E1)
-        uz = unconsumed_zero_guard(fn, did, call, pull, sq)
+            continue   # only on paths that end in a throw (E1)
+        leak = None
+        if in_end and pull.unused is not None:
+            if pull.unused[0] == 'avail_in':
+                left = {('node', x): E.ge(1) for x in fn.nodes if is_stream_member(fn, x, sq, {'avail_in'})}
+                o_left = assume(fb, fn, call, pull, pull.stream_end, extra=left)
+                if on_normal_path(o_left, fn, call['id'], did):
+                    leak = 'with avail_in != 0'
+            else:
+                _k, qname, _pi, ci = pull.unused
+                qs = [fn.nodes[e] for e in o_end.reached if E.is_extern_c(fn.nodes[e]) and fn.nodes[e]['q'] == qname]
+                o_by = assume(fb, fn, call, pull, pull.stream_end, stop_at={q['id'] for q in qs})
+                if o_by is not None and did in o_by.reached:     # executes before / without the query (and in_end: returns normally)
+                    leak = 'without having asked %s first' % qname
+                for q in qs:
+                    car = addr_carrier(fn, q['args'][ci]) if len(q.get('args', [])) > ci else None
+                    if car is None:
+                        R.broken('%s (%s): count output of %s is not the address of a local' % (fn.q, fn.loc(q['id']), qname))
+                        continue
+                    env = state_env(fn, call, until=q['id'])
+                    env[car] = E.ge(1)
+                    o_q = walk_from(fb, fn, q, site=call['id'], env=env, seeded=True)
+                    if leak is None and on_normal_path(o_q, fn, q['id'], did):
+                        leak = 'although %s reported unused bytes' % qname
+        elif in_end:
+            leak = 'no way to ask the library for unconsumed input'
+        uz = in_end and leak is None
         toks = (['stream-end'] if in_end else []) + (['more'] if in_more else []) + sig + (['unused-empty'] if uz else [])
         key = '%s#end-declared@%s' % (fn.q, '+'.join(toks))
         if in_more:
             R.bad('X2-end-only-when-input-consumed', key, fn.loc(did),
-                  '%s can execute although %s reported %s (more to come): the rest of the data is dropped' % (fn.expr(did), name, pull.names.get('more', 'more')))
+                  '%s lies on a normally returning path although %s reported %s (more to come): the rest of the data is dropped'
+                  % (fn.expr(did), name, pull.names.get('more', 'more')))
             continue
         if not uz and pull.unused is not None:
             qn = (pull.unused[1],) if pull.unused[0] == 'query' else ()
@@ -361,11 +416,10 @@ def _one_pull(fb, R, fn, call, pull, X):
                 R.broken('%s (%s): %s is guarded by a helper that looks at the unconsumed input; unknown shape' % (fn.q, fn.loc(did), fn.expr(did)))
                 continue
         R.check(uz, 'X2-end-only-when-input-consumed', key, fn.loc(did),
-                '%s declares the end of the data after %s without a test that the library\'s unconsumed input is empty (%s)%s: bytes of a '
-                'following stream that the library has already read are dropped'
-                % (fn.expr(did), sname, 'count from %s == 0' % pull.unused[1] if pull.unused and pull.unused[0] == 'query' else 'avail_in == 0',
-                   '; feof() says nothing about the library\'s read-ahead buffer' if any('feof' in t for t in sig) else ''),
-                'guarded by an unconsumed-input-is-empty test')
+                '%s declares the end of the data after %s on a normally returning path %s%s: bytes of a following stream that the library '
+                'has already read are dropped'
+                % (fn.expr(did), sname, leak, '; feof() says nothing about the library\'s read-ahead buffer' if any('feof' in t for t in sig) else ''),
+                'no normally returning path declares the end while unconsumed input is left')
 
     # ---- X3 / X4: handling of the unused bytes (query convention only)
     if pull.unused and pull.unused[0] == 'query':
@@ -561,7 +615,8 @@ def run(ctx):
     R.expect('N0-read-override-pulls', 6)            # Dummy (not real), No, Gzip, GzipBuffer, Bzip2, Bzip2Buffer
     R.expect('S1-chunk-length-is-library-count', 5)  # reliable_read gzread inflate BZ2_bzRead BZ2_bzDecompress
     R.expect('N1-no-empty-chunk-while-more', 5)      # the same five under "more" (+ Bzip2Decompressor after the reopen, while it reopens)
-    R.expect('N2-retry-only-with-input-left', 0)     # no instance until the buffer decompressors loop (F5b fix: 2)
+    R.expect('N2-retry-only-with-input-left', 2)     # inflate, BZ2_bzDecompress
+    R.expect('S2-no-pull-again-over-data', 5)
     R.expect('X1-stream-end-continues', 3)           # BZ2_bzRead inflate BZ2_bzDecompress
     R.expect('X2-end-only-when-input-consumed', 3)   # one declaration per stream-end-aware read()
     R.expect('K1-close-closes-library-handle', 2)    # GzipDecompressor Bzip2Decompressor
@@ -585,7 +640,9 @@ def _selftest(fb, R):
     read_thread_rules(fb, R)
     # the conforming twins must stay silent: several rules fire on today's tree, this is their evidence that they can pass
     wrong = [(i.rule, i.key) for i in R.instances.values() if not i.ok and '::Good' in i.key]
-    need = [('N2-retry-only-with-input-left', NS + 'GoodGzipBufferDecompressor::read#inflate:Z_OK:pulls-again'),
+    need = [('N2-retry-only-with-input-left', NS + 'GoodGzipBufferDecompressor::read#inflate:Z_OK:input-exhausted'),
+            ('S2-no-pull-again-over-data', NS + 'GoodGzipBufferDecompressor::read#inflate:Z_OK'),
+            ('S2-no-pull-again-over-data', NS + 'GoodBzip2Decompressor::read#BZ2_bzRead:BZ_OK'),
             ('X1-stream-end-continues', NS + 'GoodGzipBufferDecompressor::read#inflate:next-stream-started'),
             ('X2-end-only-when-input-consumed', NS + 'GoodGzipBufferDecompressor::read#end-declared@stream-end+unused-empty'),
             ('N1-no-empty-chunk-while-more', NS + 'GoodGzipBufferDecompressor::read#inflate:Z_OK'),
@@ -613,6 +670,6 @@ def _selftest(fb, R):
 
 SELFTESTS = [(r, 'c09_decomp.cpp', _selftest) for r in (
     'E1-read-error-reaches-throw', 'E1-nothrow-explicit-discard', 'S1-chunk-length-is-library-count', 'N1-no-empty-chunk-while-more',
-    'N2-retry-only-with-input-left',
+    'N2-retry-only-with-input-left', 'S2-no-pull-again-over-data',
     'X1-stream-end-continues', 'X2-end-only-when-input-consumed', 'X3-unused-copied-before-close', 'X4-reopen-receives-unused',
     'K1-close-closes-library-handle', 'K2-handle-reset-before-throw', 'T1-read-thread-closes-in-try', 'T2-every-chunk-forwarded')]
